@@ -10,7 +10,9 @@ RULE = ("engine trig: connect replies with every combination of present / absent
         "(time.NewTicker woven to a harness ticker), scripted ticks of any of the up to six timers, the processor receiving or staying busy, "
         "the stop request at any point (ticks in flight, forwarder blocked, member blocked), and a final drain. After every op the engine waits "
         "until every goroutine is parked (runtime goroutine dump) and reports how many trigger goroutines are idle / blocked sending, the "
-        "forwarder's and Close's position and the harvest types the processor received. Non-trivial = the stop request found a member or the "
+        "forwarder's and Close's position and the harvest types the processor received. Engine proc (zero-limit histories): the real Processor "
+        "with agent and collector limits of which some are zero, events of every category offered in the first and later periods, combined / "
+        "per-category harvests and the final flush; Spec: no request of a category whose negotiated limit is zero. Non-trivial = the stop request found a member or the "
         "forwarder blocked; distinct = distinct op lists.")
 ASSUMPTIONS = ["timers are virtual: a tick is a scripted event; real 60 s timers and clock drift are not exercised",
                "the processor is represented by its receive on the harvest channel (it does nothing else with these goroutines; "
@@ -84,10 +86,19 @@ def gen(rng):
 def plan(ctx):
     rng, tier = ctx["rng"], ctx["tier"]
     n = 150 if tier == "quick" else 4000
-    return [("corpus", corpus(ID)), ("gen", [("tg%d" % i, gen(rng)) for i in range(n)])]
+    from checks import gen_proc
+    m = 40 if tier == "quick" else 1500
+    zero = [("zl%d" % i, gen_proc.zero_limit_history(rng)) for i in range(m)]
+    return [("corpus", corpus(ID)), ("gen", [("tg%d" % i, gen(rng)) for i in range(n)]), ("proc", zero)]
+
+
+SPEC_PREFIXES = ("C12",)
 
 
 def run(ctx, bname, seqs):
+    if seqs and seqs[0][1] and seqs[0][1][0].startswith("proc "):
+        from checks import proc_common as pc
+        return pc.run_proc(ctx, bname, seqs, SPEC_PREFIXES)
     import concurrent.futures as cf
     k = 12 if len(seqs) > 12 else 1
     shards = [seqs[i::k] for i in range(k)]
@@ -99,6 +110,10 @@ def run(ctx, bname, seqs):
 
 
 def nontrivial(r):
+    if r.ops and r.ops[0].startswith("proc "):
+        # a zero was negotiated for some category and events of every category were offered
+        return any(o.startswith("proc reply") and " connect " in o and ("=0 " in o) for o in r.ops) or \
+            any(o.startswith("proc defapp") and ("span=0" in o or "log=0" in o or "custom=0" in o) for o in r.ops)
     seen_close = False
     for o, il in zip(r.ops, r.impl):
         if o.startswith("trig close") or o.startswith("trig procclose"):
